@@ -248,6 +248,19 @@ var templates = []tmpl{
 	{"/a {(x) {pop a} forall 1} def a", []string{"execstackoverflow"}},
 	{"/a {0 1 0 {pop a} for 1} def a", []string{"execstackoverflow"}},
 	{"/a {{a exit} loop 1} def a", []string{"execstackoverflow"}},
+	// the recursive call stands last in its body, behind an operator that
+	// runs a procedure: an interpreter may cut this off like any nesting, or
+	// - as the PLRM describes for calls in tail position - run on in constant
+	// space until a budget stops it ("<runs-on>": no result within the time
+	// limit is accepted); what it may not do is grow until the process dies
+	{"/a {true {a} if} def a", []string{"execstackoverflow", "<runs-on>"}},
+	{"/a {{a} exec} def a", []string{"execstackoverflow", "<runs-on>"}},
+	{"/a {false {} {a} ifelse} def a", []string{"execstackoverflow", "<runs-on>"}},
+	{"/a {1 {a} repeat} def a", []string{"execstackoverflow", "<runs-on>"}},
+	{"/a {[1] {pop a} forall} def a", []string{"execstackoverflow", "<runs-on>"}},
+	{"/a {0 1 0 {pop a} for} def a", []string{"execstackoverflow", "<runs-on>"}},
+	{"/a {true {a} if} bind def a", []string{"execstackoverflow", "<runs-on>"}},
+	{"/a {b} def /b {true {a} if} def a", []string{"execstackoverflow", "<runs-on>"}},
 	{"/a {b 1} def /b {a 2} def a", []string{"execstackoverflow"}},
 	{"/a {b} def /b {c 1} def /c {a} def a", []string{"execstackoverflow", "stackoverflow"}},
 	// recursion through a name whose value is an executable name
@@ -360,7 +373,13 @@ func instance(t *rapid.T) limitCase {
 }
 
 func judge(c limitCase, o isolate.Outcome) string {
+	runsOn := false
+	for _, e := range c.Expect {
+		runsOn = runsOn || e == "<runs-on>"
+	}
 	switch {
+	case o.Hung && runsOn:
+		return ""
 	case o.Hung:
 		return fmt.Sprintf("no result within the time limit (runaway execution not cut off)\nprogram: %s", c.Text)
 	case o.Died:
